@@ -152,7 +152,7 @@ func (bf *boundsFunc) errResultFacts(s *bstate, lhs ast.Expr, r ast.Expr) {
 	if sig.Results().Len() == 0 || !types.Implements(sig.Results().At(sig.Results().Len()-1).Type(), errorIface) {
 		return
 	}
-	if _, isIface := sig.Results().At(sig.Results().Len()-1).Type().Underlying().(*types.Interface); !isIface {
+	if _, isIface := sig.Results().At(sig.Results().Len() - 1).Type().Underlying().(*types.Interface); !isIface {
 		return
 	}
 	pk, ok := bf.pathKey(lhs)
@@ -179,4 +179,184 @@ func (bf *boundsFunc) errResultFacts(s *bstate, lhs ast.Expr, r ast.Expr) {
 	if len(b.t) > 0 {
 		s.bv["nil:"+pk] = b
 	}
+}
+
+// isByteSeq reports whether t is a string or a slice of bytes: the buffers the engine's obligations are about.
+func isByteSeq(t types.Type) bool {
+	if t == nil {
+		return false
+	}
+	switch u := t.Underlying().(type) {
+	case *types.Basic:
+		return u.Info()&types.IsString != 0
+	case *types.Slice:
+		b, ok := u.Elem().Underlying().(*types.Basic)
+		return ok && (b.Kind() == types.Uint8)
+	}
+	return false
+}
+
+// nonNilSliceFacts: x != nil for a local slice variable whose every assignment in the function is
+// make([]T, K) with one constant K (or nil), whose address is never taken and which is never re-sliced
+// or appended to, implies len(x) == K.
+func (bf *boundsFunc) nonNilSliceFacts(s *bstate, e ast.Expr) {
+	id, ok := ast.Unparen(e).(*ast.Ident)
+	if !ok {
+		return
+	}
+	v, ok := bf.info.Uses[id].(*types.Var)
+	if !ok || v.IsField() || v.Pkg() == nil || v.Parent() == v.Pkg().Scope() {
+		return
+	}
+	if _, isSlice := v.Type().Underlying().(*types.Slice); !isSlice {
+		return
+	}
+	var k int64 = -1
+	bad := false
+	ast.Inspect(bf.fi.Decl.Body, func(n ast.Node) bool {
+		switch st := n.(type) {
+		case *ast.AssignStmt:
+			for i, l := range st.Lhs {
+				lid, ok := ast.Unparen(l).(*ast.Ident)
+				if !ok || (bf.info.Uses[lid] != v && bf.info.Defs[lid] != v) {
+					continue
+				}
+				if len(st.Rhs) != len(st.Lhs) {
+					bad = true
+					continue
+				}
+				r := ast.Unparen(st.Rhs[i])
+				if tv := bf.info.Types[r]; tv.IsNil() {
+					continue
+				}
+				c, ok := r.(*ast.CallExpr)
+				if !ok || !isBuiltinCall(bf.info, c, "make") || len(c.Args) < 2 {
+					bad = true
+					continue
+				}
+				n, ok := intValue(bf.info, c.Args[1])
+				if !ok || (k >= 0 && k != n) {
+					bad = true
+					continue
+				}
+				k = n
+			}
+		case *ast.ValueSpec:
+			for i, nm := range st.Names {
+				if bf.info.Defs[nm] == v && i < len(st.Values) {
+					if tv := bf.info.Types[st.Values[i]]; !tv.IsNil() {
+						bad = true
+					}
+				}
+			}
+		case *ast.UnaryExpr:
+			if uid, ok := ast.Unparen(st.X).(*ast.Ident); ok && st.Op.String() == "&" && bf.info.Uses[uid] == v {
+				bad = true
+			}
+		case *ast.RangeStmt:
+			for _, kv := range []ast.Expr{st.Key, st.Value} {
+				if kid, ok := kv.(*ast.Ident); ok && (bf.info.Uses[kid] == v || bf.info.Defs[kid] == v) {
+					bad = true
+				}
+			}
+		}
+		return true
+	})
+	if bad || k < 0 {
+		return
+	}
+	if ln, ok := bf.lenOf(id); ok {
+		l := ln.clone()
+		l.c -= k
+		s.addEQ(l)
+	}
+}
+
+// trueReturnFacts computes, for an in-package function with a single boolean result and parameters that
+// are never assigned, the facts over its parameters that hold at every feasible site returning true
+// (a `return true`, or `return <expr>` together with <expr> being true).
+func (ba *boundsAnalysis) trueReturnFacts(fi *FuncInfo) []lin {
+	if ba.trueCache == nil {
+		ba.trueCache = map[*types.Func][]lin{}
+	}
+	if f, ok := ba.trueCache[fi.Obj]; ok {
+		return f
+	}
+	ba.trueCache[fi.Obj] = nil
+	sig := fi.Obj.Type().(*types.Signature)
+	if sig.Results().Len() != 1 {
+		return nil
+	}
+	if b, ok := sig.Results().At(0).Type().Underlying().(*types.Basic); !ok || b.Info()&types.IsBoolean == 0 {
+		return nil
+	}
+	info := fi.Pkg.TypesInfo
+	params := map[types.Object]bool{}
+	for i := 0; i < sig.Params().Len(); i++ {
+		params[sig.Params().At(i)] = true
+	}
+	assigned := false
+	ast.Inspect(fi.Decl.Body, func(n ast.Node) bool {
+		switch st := n.(type) {
+		case *ast.AssignStmt:
+			for _, l := range st.Lhs {
+				if id, ok := ast.Unparen(l).(*ast.Ident); ok && params[info.Uses[id]] {
+					assigned = true
+				}
+			}
+		case *ast.IncDecStmt:
+			if id, ok := ast.Unparen(st.X).(*ast.Ident); ok && params[info.Uses[id]] {
+				assigned = true
+			}
+		case *ast.UnaryExpr:
+			if id, ok := ast.Unparen(st.X).(*ast.Ident); ok && st.Op.String() == "&" && params[info.Uses[id]] {
+				assigned = true
+			}
+		}
+		return true
+	})
+	if assigned {
+		return nil
+	}
+	bf := &boundsFunc{ba: ba, fi: fi, info: info, cfg: ba.p.CFGOf(fi)}
+	bf.run()
+	var acc *bstate
+	for _, ret := range bf.cfg.Returns() {
+		if len(ret.Results) != 1 {
+			return nil
+		}
+		st := bf.stateAt(ret)
+		if st == nil || st.infeasible() {
+			continue
+		}
+		if tv := info.Types[ret.Results[0]]; tv.Value != nil {
+			if tv.Value.String() == "false" {
+				continue
+			}
+		} else {
+			for _, m := range litsOf(ret.Results[0], nil, true) {
+				bf.factsOfLit(st, m)
+			}
+		}
+		keep := newState()
+		for _, f := range st.le {
+			if bf.rootsUnmodified(f) {
+				keep.le[f.key()] = f
+			}
+		}
+		if acc == nil {
+			acc = keep
+		} else {
+			acc = meet(acc, keep)
+		}
+	}
+	var out []lin
+	if acc != nil {
+		for _, f := range acc.le {
+			out = append(out, f)
+		}
+		sort.Slice(out, func(i, j int) bool { return out[i].String() < out[j].String() })
+	}
+	ba.trueCache[fi.Obj] = out
+	return out
 }
